@@ -454,6 +454,18 @@ impl World {
         Ok((copy, node))
     }
 
+    /// Composite (main + backup) store: a signer restored from what the BACKUP store holds alone - the recovery
+    /// after the main store was lost, which is what the backup is kept for
+    pub fn crash_copy_backup(&self) -> Result<(Store, Arc<Node>), String> {
+        let kvvs: Vec<KVV> = self.store.dump_backup().into_iter().map(|(k, v, vv)| KVV(k, (v, vv))).collect();
+        let s = MemoryKVVStore::new(SIGNER_ID);
+        s.put_batch(kvvs).map_err(|e| format!("backup store not loadable: {:?}", e))?;
+        let copy = Store::Mem(Arc::new(KVVPersister(FaultyKVV::new(s), JsonFormat)));
+        let clock = Arc::new(ManualClock::new(self.clock.now()));
+        let node = build_node(&self.cfg, &copy, clock)?;
+        Ok((copy, node))
+    }
+
     /// Cloud mode: a signer restored from what the external store holds, i.e. from the reported mutations
     /// alone (the restart after a crash between `prepare` and `commit`, or on another machine)
     pub fn crash_copy_external(&self) -> Result<(Store, Arc<Node>), String> {
